@@ -394,6 +394,22 @@ def run_parse(pid, oracle):
         fl = fuzz_cases(o, ctx, "req", tier, seed) + fuzz_cases(o, ctx, "resp", tier, seed)
         diff_run(o, ctx, fl, oracle=oracle, nontrivial=nontriv, tags=lambda c, a: "fuzz-" + tags_parse(c, a))
         if pid == "C01":
+            # inputs that END at a page boundary with an inaccessible page behind them (real code only): heads cut inside the
+            # target, the version, a field line — at every length, so that every word-at-a-time scan meets every remainder
+            gl = []
+            for stem in (b"GET /", b"GET /a?", b"GET http://h", b"CONNECT h", b"GET /p HTTP/1.", b"GET /p HTTP/1.1\r\nHost: ", b"GET /p HTTP/1.1\r\nx-y"):
+                for pad in range(0, 41):
+                    gl.append("REQG " + hx(stem + b"o" * pad))
+            for stem in (b"HTTP/1.1 200 ", b"HTTP/1.1 200 OK\r\nServer: ", b"HTTP/1."):
+                for pad in range(0, 24):
+                    gl.append("RESPG " + hx(stem + b"k" * pad))
+            for full in (b"GET /index.html?x=1 HTTP/1.1\r\nHost: a\r\n\r\n", b"POST http://h.example:80/p/q?z HTTP/1.0\r\nContent-Length: 3\r\n\r\n"):
+                gl += ["REQG " + hx(full[:k_]) for k_ in range(len(full) + 1)]
+            for c, a in zip(gl, C.run_sharded(ctx["kimpl"], gl, shards=1)):
+                o.evaluations += 1
+                o.count("guard-page:" + a.split()[0])
+                if not a.startswith("G ") and len(o.violations) < 50:
+                    o.violations.append({"case": c, "impl": a[:200], "why": "the parser touched memory outside its input (the input ends at an inaccessible page) or panicked: " + a[:40]})
             # very long targets: real code only
             ll = ["REQ " + hx(b) for b in G.long_target_cases(seed, t)]
             for c, a in zip(ll, C.run_sharded(ctx["kimpl"], ll, shards=min(C.NCPU, len(ll)))):
